@@ -14,6 +14,7 @@
 //!   glue …                      `\skip0=…`
 //!   gp w st so sh sho           Display of a `Glue`, `\the\skip2`, and `\skip0=\the\skip2`
 //!   op <adv|mul|div> <int|dim|glue> …   `\advance`, `\multiply`, `\divide` on `\count0`/`\dimen0`/`\skip0`
+//!   kx x n d | kn x n y | ks ip f unit | kf digits | ki i   the kernels through the `common::Scaled` API
 //!   tint|tdim|tglue|tidx <flag> <text>  raw text after `\count0=` / `\dimen0=` / `\skip0=` / `\advance\count`
 //!                               (`_` space, `!` = `\count2=5 `): where the constant ends; Lean cuts the text
 //!
@@ -56,6 +57,14 @@ impl TexlangState for State {
     ) -> Result<(), Box<dyn error::TexError>> {
         self.errors.borrow_mut().push(recoverable_error.error.title());
         Ok(())
+    }
+    // em and ex differ from each other and from texlang's default (12pt for both): see
+    // `Text.emWidth` / `Text.exHeight` in lean/TexcraftModel/Model/C06Text.lean
+    fn em_width(&self) -> Scaled {
+        Scaled(655360)
+    }
+    fn ex_height(&self) -> Scaled {
+        Scaled(282168)
     }
 }
 impl the::TheCompatible for State {}
@@ -374,8 +383,9 @@ fn render_part(c: &mut Cursor, pre: &mut String, base: usize, bits: u32, tags: &
         f if f.starts_with("fil") => {
             let ls: usize = f[3..].parse().unwrap();
             s.push_str(&up("fil"));
-            for _ in 0..ls {
-                s.push('l');
+            for k in 0..ls {
+                // keywords match in either case, letter by letter
+                s.push(if bits & 4 != 0 && k % 2 == 0 { 'L' } else { 'l' });
             }
             s.push(' ');
             tags.push(format!("unit:fil+{ls}l"));
@@ -446,7 +456,15 @@ fn compare_l(o: &mut CaseOutcome, stream: &str, label: &dyn Fn(Option<usize>) ->
         (Got::Vals(v, e), Want::Vals(sv, se)) => {
             if v != sv {
                 let idx = v.iter().zip(sv.iter()).position(|(a, b)| a != b);
-                o.fail(Kind::ImplVsSpec, stream, format!("{}: value", label(idx)), format!("impl {v:?} errors {e:?}; TeX {sv:?} errors {se}"));
+                // The recorded deviation C06-f and nothing else: the model reproduces the implementation
+                // exactly, and the only difference to TeX is the sign of a value clamped to max_dimen.
+                let model_same = matches!(model, Want::Vals(mv, me) if mv == v && e.map_or(true, |e| e == *me));
+                let only_clamp_sign = v.len() == sv.len()
+                    && v.iter().zip(sv.iter()).all(|(a, b)| a == b || (*a == -*b && a.abs() == MAXD))
+                    && e.map_or(true, |e| e == *se)
+                    && *se > 0;
+                let what = if model_same && only_clamp_sign { "clamp sign of a negative unit" } else { "value" };
+                o.fail(Kind::ImplVsSpec, stream, format!("{}: {what}", label(idx)), format!("impl {v:?} errors {e:?}; TeX {sv:?} errors {se}"));
                 spec_failed = true;
             } else if let Some(e) = e {
                 if (*e == 0) != (*se == 0) || *e != *se {
@@ -841,6 +859,32 @@ impl Property for C06 {
                 v.push(format!("inta {sg} {c}"));
             }
         }
+        // beyond ASCII (the value is the Unicode scalar, never truncated) and the `\c form
+        for c in [0xA7u32, 0xE9, 0xFF, 0x100, 0x17F, 0x3B1, 0x20AC, 0xFFFD, 0x10000, 0x1F600, 0x10FFFF] {
+            for sg in ["_", "m"] {
+                v.push(format!("inta {sg} {c}"));
+                v.push(format!("intc {sg} {c}"));
+            }
+        }
+        for c in "aAzZ09!?@*%{}$&#^_~\\|<\"'`.,;-+= ".chars() {
+            if c != ' ' {
+                v.push(format!("intc _ {}", c as u32));
+                v.push(format!("intc m {}", c as u32));
+            }
+        }
+        for _ in 0..(if t { 400 } else { 60 }) {
+            let c = loop {
+                let c = match r.below(3) {
+                    0 => r.range(0x80, 0x7FF),
+                    1 => r.range(0x800, 0xFFFF),
+                    _ => r.range(0x10000, 0x10FFFF),
+                } as u32;
+                if char::from_u32(c).is_some() {
+                    break c;
+                }
+            };
+            v.push(format!("{} {} {c}", if r.chance(1, 2) { "inta" } else { "intc" }, *r.pick(&["_", "m"])));
+        }
 
         // ---- where a constant ends (TeX §444-§445): every radix × digit strings × what follows immediately
         // (no space): a-f, A-F (category letter, and category other via \catcode), g-z, G-Z, 8/9/0, units,
@@ -855,7 +899,7 @@ impl Property for C06 {
             for u in ["pt", "bp", "cc", "cm", "dd", "em", "ex", "in", "mm", "pc", "sp", "BP", "CC", "DD", "EM", "EX", "Bp", "cC", "truebp", "truecc", "bp!", "cc!x", "dd_e", "em_f"] {
                 followers.push(u.to_string());
             }
-            for k in ["by", "plus", "minus", "fil", "fill", "filll", "fillll", "FIL", "true", "to", "depth", "b", "by5"] {
+            for k in ["by", "plus", "minus", "fil", "fill", "filll", "fillll", "FIL", "fiLL", "FILLL", "filL", "fIlLlL", "pT", "Pt", "TRUEpt", "tRuEin", "eM", "Ex", "true", "to", "depth", "b", "by5"] {
                 followers.push(k.to_string());
             }
             // a space ends the number: a decimal point after it does not start a fraction (TeX §448)
@@ -1182,6 +1226,53 @@ impl Property for C06 {
             v.push(format!("gp {}", join(&g)));
         }
 
+        // ---- the kernels through the public `common::Scaled` API (negative operands too)
+        {
+            let mut r = rng.fork();
+            let xs: [i64; 14] = [0, 1, -1, 7, -7, 65535, -65536, 98303, -98305, MAXD, -MAXD, MAXD + 1, IMAX, IMIN];
+            let nds: [i64; 10] = [0, 1, 2, 3, 100, 7227, 7200, 32768, 65535, 65536];
+            for x in xs {
+                for n in nds {
+                    for d in nds {
+                        if d != 0 {
+                            v.push(format!("kx {x} {n} {d}"));
+                        }
+                    }
+                    for y in [0i64, 1, -1, MAXD, -MAXD, 65536] {
+                        v.push(format!("kn {x} {n} {y}"));
+                        v.push(format!("kn {x} {} {y}", -n));
+                    }
+                }
+            }
+            for _ in 0..(if t { 20000 } else { 2500 }) {
+                let x = interesting_i32(&mut r);
+                let n = match r.below(3) { 0 => r.range(0, 65536), 1 => r.range(0, 20), _ => *r.pick(&nds) };
+                let d = match r.below(3) { 0 => r.range(1, 65536), 1 => r.range(1, 20), _ => *r.pick(&nds[1..]) };
+                v.push(format!("kx {x} {n} {d}"));
+                let y = if r.chance(1, 2) { r.range(-MAXD, MAXD) } else { (interesting_i32(&mut r) as i64).clamp(-MAXD, MAXD) };
+                v.push(format!("kn {x} {} {y}", interesting_i32(&mut r)));
+                v.push(format!("kn {} {} {y}", r.range(-70000, 70000), r.range(-70000, 70000)));
+            }
+            for u in units {
+                for ip in [0i64, 1, 225, 226, 227, 575, 576, 1276, 1277, 16383, 16384, MAXD, MAXD + 1, IMAX] {
+                    for f in [0i64, 1, 32768, 65535, 65536] {
+                        v.push(format!("ks {ip} {f} {u}"));
+                    }
+                }
+                for _ in 0..(if t { 300 } else { 40 }) {
+                    v.push(format!("ks {} {} {u}", r.range(0, 20000), r.range(0, 65536)));
+                }
+            }
+            for i in [0i64, 1, -1, 16383, 16384, -16383, -16384, 16385, IMAX, IMIN, 32768] {
+                v.push(format!("ki {i}"));
+            }
+            for _ in 0..(if t { 3000 } else { 400 }) {
+                let len = r.range(0, 20);
+                let ds: String = (0..len).map(|_| std::char::from_digit(r.below(10) as u32, 10).unwrap()).collect();
+                v.push(format!("kf {}", if ds.is_empty() { "_".into() } else { ds }));
+            }
+        }
+
         // ---- arithmetic: 40×40 boundary grid + random pairs
         let mut r = rng.fork();
         let grid: [i64; 40] = [
@@ -1308,7 +1399,7 @@ impl Property for C06 {
                     o.fail(Kind::ImplVsSpec, "psx", "ps: scan(print s) != s", format!("s={s}: {d} (replay: ps {s})"));
                 }
             }
-            "int" | "inti" | "inta" | "intd" | "intg" => {
+            "int" | "inti" | "inta" | "intc" | "intd" | "intg" => {
                 let sg = words[1];
                 let mut pre = String::new();
                 let (body, dreq) = match kind {
@@ -1326,8 +1417,10 @@ impl Property for C06 {
                         ("\\skip2".to_string(), format!("inti {sg} {}", words[2]))
                     }
                     _ => {
-                        let c: u8 = words[2].parse().unwrap();
-                        (format!("`{}", c as char), format!("inti {sg} {c}"))
+                        // alphabetic constant: `c, or `\c (a one-character control sequence); any Unicode scalar
+                        let c: u32 = words[2].parse().unwrap();
+                        let ch = char::from_u32(c).expect("inta/intc <signs> <unicode scalar value>");
+                        (if kind == "intc" { format!("`\\{ch}") } else { format!("`{ch}") }, format!("inti {sg} {c}"))
                     }
                 };
                 let src = format!("{pre}\\count0={}{body} ", signs_src(sg));
@@ -1372,6 +1465,8 @@ impl Property for C06 {
                 };
                 let got = run(&src, false);
                 let class = class_of(&tags);
+                // StdLibState has em = ex = 12pt: only the small state is compared for these units
+                let uses_em_ex = tags.iter().any(|t| t == "unit:em" || t == "unit:ex");
                 for t in tags {
                     o.tag(format!("dim:{t}"));
                 }
@@ -1383,7 +1478,7 @@ impl Property for C06 {
                     }
                 }
                 compare(&mut o, &format!("dim[{class}]"), &got, &model, &spec);
-                if bits & 8 != 0 {
+                if bits & 8 != 0 && !uses_em_ex {
                     o.tag("dim:stdlib-state");
                     let got2 = run(&src, true);
                     compare(&mut o, &format!("dim-stdlib[{class}]"), &got2, &model, &spec);
@@ -1432,6 +1527,7 @@ impl Property for C06 {
                     }
                 };
                 let got = run(&src, false);
+                let uses_em_ex = tags.iter().any(|t| t == "unit:em" || t == "unit:ex");
                 for t in tags {
                     o.tag(format!("glue:{t}"));
                 }
@@ -1446,7 +1542,7 @@ impl Property for C06 {
                     }
                 };
                 compare_l(&mut o, "glue", &label("glue"), &got, &model, &spec);
-                if bits & 8 != 0 {
+                if bits & 8 != 0 && !uses_em_ex {
                     o.tag("glue:stdlib-state");
                     let got2 = run(&src, true);
                     compare_l(&mut o, "glue-stdlib", &label("glue-stdlib"), &got2, &model, &spec);
@@ -1573,6 +1669,51 @@ impl Property for C06 {
                 o.nontrivial = nums.iter().any(|x| *x != 0);
                 compare(&mut o, &stream, &got, &model, &spec);
             }
+            "kx" | "kn" | "ks" | "kf" | "ki" => {
+                let reply = drv.ask(&req);
+                let (m, sp) = split_reply(&reply);
+                let a: Vec<i64> = words[1..].iter().filter_map(|x| x.parse().ok()).collect();
+                let got: Result<String, String> = caught(|| match kind {
+                    "kx" => match Scaled(a[0] as i32).xn_over_d(a[1] as i32, a[2] as i32) {
+                        Ok((q, r)) => format!("ok {} {}", q.0, r.0),
+                        Err(_) => "overflow".into(),
+                    },
+                    "kn" => match Scaled(a[0] as i32).nx_plus_y(a[1] as i32, Scaled(a[2] as i32)) {
+                        Ok(r) => format!("ok {}", r.0),
+                        Err(_) => "overflow".into(),
+                    },
+                    "ks" => match Scaled::new(a[0] as i32, Scaled(a[1] as i32), common::ScaledUnit::parse(words[3]).expect("unit")) {
+                        Ok(r) => format!("ok {}", r.0),
+                        Err(_) => "overflow".into(),
+                    },
+                    "kf" => {
+                        let ds: Vec<u8> = if words[1] == "_" { vec![] } else { words[1].bytes().map(|b| b - b'0').collect() };
+                        format!("ok {}", Scaled::from_decimal_digits(&ds).0)
+                    }
+                    _ => match Scaled::from_integer(a[0] as i32) {
+                        Ok(r) => format!("ok {}", r.0),
+                        Err(_) => "overflow".into(),
+                    },
+                });
+                o.tag(format!("{kind}:{}", match &got { Ok(g) if g.starts_with("ok") => "ok", Ok(_) => "overflow", Err(_) => "panic" }));
+                o.nontrivial = a.iter().any(|x| *x != 0) || kind == "kf";
+                match got {
+                    Err(loc) => {
+                        if sp != "undef" {
+                            o.fail(Kind::ImplPanic, kind, format!("{kind}: panic {}", ploc(&loc)), format!("{case}: panic at {loc}; TeX {sp}"));
+                        } else if m != "panic" {
+                            o.fail(Kind::ImplVsModel, kind, format!("{kind}: model"), format!("{case}: panic at {loc}; model {m}"));
+                        }
+                    }
+                    Ok(g) => {
+                        if sp != "undef" && g != sp {
+                            o.fail(Kind::ImplVsSpec, kind, format!("{kind}: value"), format!("{case}: impl {g}; TeX {sp}"));
+                        } else if g != m {
+                            o.fail(Kind::ImplVsModel, kind, format!("{kind}: model"), format!("{case}: impl {g}; model {m}"));
+                        }
+                    }
+                }
+            }
             "tint" | "tdim" | "tglue" | "tidx" => {
                 // <kind> <flag> <text>: `_` = space, `!` = `\count2=5 `; flag bit0: A-F have catcode 12
                 // (needs \catcode: StdLibState), bit1: also run through StdLibState.
@@ -1675,7 +1816,17 @@ impl Property for C06 {
                         Some(_) => "other".into(),
                     }
                 ));
-                let runs: Vec<bool> = if cat12 { vec![true] } else if flag & 2 != 0 { vec![false, true] } else { vec![false] };
+                let lower = text.to_ascii_lowercase();
+                let em_ex = lower.contains("em") || lower.contains("ex");
+                let runs: Vec<bool> = if cat12 && em_ex {
+                    vec![] // needs \\catcode (StdLibState) whose em/ex are 12pt: not comparable
+                } else if cat12 {
+                    vec![true]
+                } else if flag & 2 != 0 && !em_ex {
+                    vec![false, true]
+                } else {
+                    vec![false]
+                };
                 // defect class: a decimal point after the space that ended a number
                 let class = if (kind == "tdim" || kind == "tglue") && (text.contains("_.") || text.contains("_,")) { "[space-point]" } else { "" };
                 if !class.is_empty() {
